@@ -161,6 +161,34 @@ def inner_order_kept():
     return len(checks), bad
 
 
+def look_alike_in_subqueries():
+    """Two IN / NOT IN subqueries in one statement whose ASTs compare equal but which mean different things: positional
+    placeholders bound to different values; the same FROM-less text inside a FROM-subquery and in the outer WHERE (it reads
+    its own enclosing table). Oracle: the statement with literal lists."""
+    rows = [(1, 'a', 10), (2, 'b', 20), (3, 'c', 30), (4, 'a', 40), (5, 'c', 50)]
+    t = impl.make_table('t', [('k', int), ('s', str), ('v', int)], rows)
+    t.update = lambda **kw: t
+    conn = impl.connection({'t': t, 'postings': t})
+    checks = [
+        ("SELECT k FROM #t WHERE k IN (SELECT k FROM #t WHERE s = %s) OR k IN (SELECT k FROM #t WHERE s = %s)", ('a', 'c'),
+         [(1,), (3,), (4,), (5,)]),
+        ("SELECT k, k IN (SELECT k FROM #t WHERE v > %s), k IN (SELECT k FROM #t WHERE v > %s) FROM #t", (10, 40),
+         [(1, False, False), (2, True, False), (3, True, False), (4, True, False), (5, True, True)]),
+        ("SELECT k FROM #t WHERE k NOT IN (SELECT k FROM #t WHERE s = %s) AND k IN (SELECT k FROM #t WHERE s = %s)", ('a', 'a'), []),
+        ("SELECT k FROM (SELECT k, v FROM #t WHERE k IN (SELECT k WHERE v <= 40)) WHERE k IN (SELECT k WHERE v <= 40) AND v >= 20", None,
+         [(2,), (3,), (4,)]),
+    ]
+    bad = []
+    for sql, params, want in checks:
+        try:
+            got = conn.execute(sql, params).fetchall()
+        except Exception as e:  # noqa: BLE001
+            got = repr(e)
+        if got != want:
+            bad.append((sql + ('' if params is None else ' ' + repr(params)), got, want))
+    return len(checks), bad
+
+
 def nested_in_three_tables():
     """x IN (SELECT .. FROM #u WHERE .. IN (SELECT .. FROM #v)) followed by more uses of the OUTER table's columns."""
     t = impl.make_table('t', [('a', int), ('y', int)], [(1, 10), (2, 20), (3, 30), (4, 40)])
@@ -269,7 +297,7 @@ def run(tier, rng):
             violations.append(core.Violation('in-subquery', f'{c["sql"]} with #t={c["rows"]} #u={c["urows"]}: implementation {io} '
                                              f'but membership semantics (model) give {m}',
                                              {'kind': 'in', 'case': {k: v for k, v in c.items()}, 'impl': io, 'model': m}, signature=sig))
-    for fn, kind in ((same_type_columns, 'subquery-column-identity'), (nested_in_three_tables, 'nested-in'), (inner_order_kept, 'inner-order')):
+    for fn, kind in ((same_type_columns, 'subquery-column-identity'), (nested_in_three_tables, 'nested-in'), (inner_order_kept, 'inner-order'), (look_alike_in_subqueries, 'look-alike-in')):
         nchk, cbad = fn()
         for sql, got, want in cbad[:2]:
             violations.append(core.Violation(kind, f'{sql}: got {got}, expected {want}', {'kind': kind, 'sql': sql, 'got': got, 'want': want},
